@@ -743,9 +743,167 @@ def sub_tp_branches(ctx):
     ctx.sample("tp_branches", cases[0]); ctx.run_cases("tp_branches", chk_tp_branches, cases)
 
 
+# ----------------------------------------------------------------------------------------------- histories of queries on ONE object
+# A verdict must be a function of (object value, tolerance in force at that call) only (Props/C01.v C01_history_answer: in the model the
+# answer to a query after any history is the pure verdict at the Settings value last set, resp. at the explicit argument).  One object per
+# case with BOTH an equality defect de and an inequality defect di of known size; a sequence of queries through EVERY verdict function of its
+# class, with explicit tolerances (while Settings holds an unrelated value) and with atol=None under several Settings values, the
+# tolerances straddling de and di in both directions (looser after tighter, tighter after looser); the constructor's implicit query counts
+# (the object is built with is_physicality_required=True under a Settings value at which it IS physical, when the history starts that way).
+# Each answer is compared with the model at the tolerance in force at that call and with a FRESH equal object asked the same single question.
+HIST_FNS = {
+    "state": [("is_eq_constraint_satisfied", "eq"), ("is_trace_one", "eq"), ("is_ineq_constraint_satisfied", "ineq"),
+              ("is_positive_semidefinite", "ineq"), ("is_hermitian", "herm"), ("is_physical", "phys")],
+    "povm": [("is_eq_constraint_satisfied", "eq"), ("is_identity_sum", "eq"), ("is_ineq_constraint_satisfied", "ineq"),
+             ("is_positive_semidefinite", "ineq"), ("is_physical", "phys")],
+    "gate": [("is_eq_constraint_satisfied", "eq"), ("is_tp", "eq"), ("is_ineq_constraint_satisfied", "ineq"), ("is_cp", "ineq"),
+             ("is_physical", "phys")],
+    "mprocess": [("is_eq_constraint_satisfied", "eq"), ("is_sum_tp", "eq"), ("is_ineq_constraint_satisfied", "ineq"), ("is_cp", "ineq"),
+                 ("is_physical", "phys")],
+}
+
+
+def gen_hist_data(cs, case):
+    """object with trace / identity-sum / first-row defect de AND smallest-eigenvalue defect -di (both signs of de)"""
+    rs = np.random.RandomState(case["seed"] % (2 ** 32))
+    t, d, de, di = case["type"], cs.d, float(case["de"]), float(case["di"])
+    if t == "state":
+        U = unitary(rs, d)
+        p = np.zeros(d); r = int(rs.randint(1, d))
+        p[:r] = rs.uniform(0.2, 1.0, size=r); p *= (1.0 + de + di) / p.sum(); p[d - 1] = -di
+        return coef(cs, (U * p) @ U.conj().T)
+    if t == "povm":
+        m = min(case["m"], d)
+        U = unitary(rs, d); gs = groups(rs, d, m)
+        Es = [sum(np.outer(U[:, i], U[:, i].conj()) for i in g) for g in gs]
+        x0 = int(rs.randint(m)); x1 = (x0 + 1 + int(rs.randint(m - 1))) % m
+        u = U[:, gs[x1][0]]; P = np.outer(u, u.conj())
+        Es[x0] = Es[x0] - di * P; Es[x1] = Es[x1] + di * P + de * np.eye(d)
+        return [coef(cs, E) for E in Es]
+    if t == "gate":
+        S = scb_of(kraus_set(rs, d, int(rs.randint(1, d * d))))
+        hs = perturb_cp(cs, S, di).copy(); hs[0, int(rs.randint(d * d))] += de
+        return hs
+    m = case["m"]
+    Ks = kraus_set(rs, d, m)
+    hss = [hs_in_basis(cs, scb_of([K])) for K in Ks]
+    x0 = int(rs.randint(m)); x1 = int(rs.randint(m))
+    hss[x0] = perturb_cp(cs, scb_of([Ks[x0]]), di)
+    hss[x1] = hss[x1].copy(); hss[x1][0, int(rs.randint(d * d))] += de
+    return hss
+
+
+def call_verdict(obj, fn, a_eq, a_ineq, key):
+    f = getattr(obj, fn)
+    if key == "phys":
+        return bool(f(a_eq, a_ineq))
+    return bool(f(a_ineq if key in ("ineq", "herm") else a_eq))
+
+
+def chk_history(ctx, case):
+    from quara.settings import Settings
+    t = case["type"]; cs = get_cs(case["shape"], case["basis"])
+    data = gen_hist_data(cs, case)
+    exp = {}
+
+    def expect(tol):             # model verdicts at one tolerance (both constraints), None = inside the ambiguity band
+        if tol not in exp:
+            exp[tol] = band(ctx, cs, t, data, tol, tol, 0.0, False)[0]
+        return exp[tol]
+
+    def expected(key, te, ti):
+        if key in ("ineq", "herm"):
+            return expect(ti)[key]
+        if key == "eq":
+            return expect(te)["eq"]
+        e, i = expect(te)["eq"], expect(ti)["ineq"]
+        if e is False or i is False:
+            return False
+        return None if (e is None or i is None) else True
+    old = Settings.get_atol()
+    steps = case["steps"]
+    ndet = 0
+    try:
+        s0 = float(case["settings0"])
+        Settings.set_atol(s0)
+        req = bool(case["required"]) and expected("phys", s0, s0) is True      # the constructor's implicit query (must not raise: physical at s0)
+        obj = build(cs, t, data, required=req)
+        for n, (fi, mode, tol, tol2, setting) in enumerate(steps):
+            fn, key = HIST_FNS[t][fi % len(HIST_FNS[t])]
+            Settings.set_atol(float(setting))
+            # tolerance in force for the equality / the inequality part of this call
+            if mode == "none":
+                a_eq = a_in = None; te = ti = float(setting)
+            elif mode == "arg":
+                a_eq, a_in = float(tol), float(tol2) if key == "phys" else float(tol); te, ti = a_eq, a_in
+            elif mode == "eq-only":          # is_physical(atol_eq_const=tol): the inequality part falls back to Settings
+                a_eq, a_in = float(tol), None; te, ti = a_eq, float(setting)
+            else:                            # "ineq-only"
+                a_eq, a_in = None, float(tol); te, ti = float(setting), a_in
+            if key != "phys" and mode in ("eq-only", "ineq-only"):
+                a_eq = a_in = float(tol); te = ti = float(tol)
+            got = call_verdict(obj, fn, a_eq, a_in, key)
+            fresh = call_verdict(build(cs, t, data, required=False), fn, a_eq, a_in, key)
+            e = expected(key, te, ti)
+            site = "%s.%s" % ({"state": "State", "povm": "Povm", "gate": "Gate", "mprocess": "MProcess"}[t], fn)
+            desc = "step %d of the history: %s(%s) with Settings atol=%g in force (tolerance in force: eq %g, ineq %g)" % (
+                n, fn, "" if mode == "none" else ", ".join(str(x) for x in ((a_eq, a_in) if key == "phys" else (a_eq if key == "eq" else a_in,))), float(setting), te, ti)
+            if got != fresh:
+                ctx.violation("history", site, "verdict-depends-on-query-history",
+                              "%s: the object with a history answers %s, a fresh equal object asked the same single question answers %s (exact model: %s); the verdict is not a function of (object, tolerance in force)" % (desc, got, fresh, e), case)
+                return
+            if e is not None:
+                ndet += 1
+                if got != e:
+                    ctx.violation("history", site, "verdict-mismatch", "%s: answer %s, exact model at the tolerance in force says %s" % (desc, got, e), case)
+                    return
+    finally:
+        Settings.set_atol(old)
+    ctx.count("history", key=(t, case["shape"], case["basis"], case["seed"]), nontrivial=ndet >= len(steps) // 2,
+              label="%s:%s,required=%s" % (t, case["shape"], req))
+
+
+def sub_history(ctx):
+    rng = ctx.rng
+    cases = []
+    plan = [("state", "q", FLAG_KINDS + ["unnorm", "perm"], ctx.n(10, 60)), ("state", "t", FLAG_KINDS, ctx.n(4, 30)), ("state", "qq", ["named"], ctx.n(2, 20)),
+            ("povm", "q", FLAG_KINDS + ["unnorm", "perm"], ctx.n(10, 60)), ("povm", "t", FLAG_KINDS, ctx.n(4, 30)), ("povm", "qq", ["named"], ctx.n(2, 20)),
+            ("gate", "q", FLAG_KINDS + ["perm"], ctx.n(12, 80)), ("gate", "t", FLAG_KINDS, ctx.n(2, 16)),
+            ("mprocess", "q", FLAG_KINDS, ctx.n(10, 60)), ("mprocess", "t", ["named"], ctx.n(1, 8))]
+    for t, shape, kinds, n in plan:
+        for i in range(n):
+            de = float("%.2e" % (10.0 ** rng.uniform(-10, -4))) * rng.choice([1, -1])
+            di = float("%.2e" % (10.0 ** rng.uniform(-10, -4)))
+            if t == "gate" or t == "mprocess":
+                de = abs(de) if i % 2 else de
+            marg = [abs(de), di]
+            tight = float("%.2e" % (min(marg) / rng.choice([30.0, 1e3])))
+            loose = float("%.2e" % (max(marg) * rng.choice([30.0, 1e3])))
+            mid = float("%.2e" % math.sqrt(abs(de) * di)) if max(marg) / min(marg) > 1e3 else None
+            tols = [tight, loose] + ([mid] if mid else [])
+            nf = len(HIST_FNS[t])
+            steps = []
+            # every verdict function is asked with atol=None under the FIRST Settings value, then again under each other value (both directions)
+            order = [tols[0], tols[1], tols[0]] if i % 2 == 0 else [tols[1], tols[0], tols[1]]
+            if mid:
+                order.insert(2, mid)
+            for setting in order:
+                for fi in range(nf):
+                    steps.append([fi, "none", None, None, setting])
+            # explicit arguments while Settings holds the opposite value; mixed is_physical calls
+            for _ in range(6):
+                a, b = rng.choice(tols), rng.choice(tols)
+                steps.append([rng.randrange(nf), rng.choice(["arg", "arg", "eq-only", "ineq-only"]), a, b, rng.choice(tols)])
+            for fi in range(nf):
+                steps.append([fi, "none", None, None, order[1]])
+            cases.append({"type": t, "shape": shape, "basis": kinds[i % len(kinds)], "de": de, "di": di, "m": rng.randint(2, 3), "seed": rng.randrange(2 ** 31),
+                          "settings0": order[0], "required": i % 3 != 2, "steps": steps})
+    ctx.sample("history", cases[0]); ctx.run_cases("history", chk_history, cases)
+
+
 SUBS = [("witness", sub_witness), ("state", sub_state), ("povm", sub_povm), ("gate", sub_gate), ("mprocess", sub_mprocess),
-        ("origin", sub_origin), ("tp_branches", sub_tp_branches)]
-FNS = {"witness": chk_witness, "state": chk_obj, "povm": chk_obj, "gate": chk_obj, "mprocess": chk_obj, "origin": chk_origin, "tp_branches": chk_tp_branches}
+        ("origin", sub_origin), ("tp_branches", sub_tp_branches), ("history", sub_history)]
+FNS = {"witness": chk_witness, "state": chk_obj, "povm": chk_obj, "gate": chk_obj, "mprocess": chk_obj, "origin": chk_origin, "tp_branches": chk_tp_branches, "history": chk_history}
 
 
 def run(ctx):
